@@ -713,8 +713,8 @@ class QvmCpu:
 
         if a.type != b.type:
             self.trap(TrapCode.TYPE_MISMATCH,
-                      a.type,
-                      b.type)
+                      expected=a.type,
+                      got=b.type)
 
         if a.value == b.value:
             result = 0
